@@ -1,2 +1,4 @@
+CONSTANT UsPerUnit = 1
+CONSTANT SlackUs = 100000
 INIT TInit
 NEXT TNext
